@@ -142,6 +142,9 @@ func buildScenarioD(rng *rand.Rand, t int, kind string, npeers int, dense bool) 
 		if kind == "content" && rng.Intn(6) == 0 {
 			k = aContent
 			sc.content[i] = make([]byte, 1+rng.Intn(64))
+			if rng.Intn(4) == 0 {
+				sc.content[i] = []byte{} // an empty value is content too
+			}
 			rng.Read(sc.content[i])
 		}
 		sc.akind[i] = k
@@ -239,6 +242,9 @@ func scenarioFromCase(rng *rand.Rand, t int, c genCase) *scenario {
 	for _, h := range c.Holders {
 		sc.akind[h] = aContent
 		sc.content[h] = make([]byte, 1+rng.Intn(40))
+		if rng.Intn(4) == 0 {
+			sc.content[h] = []byte{} // an empty value is content too
+		}
 		rng.Read(sc.content[h])
 	}
 	replies := 0
@@ -379,6 +385,9 @@ func runScenario(w *tracelog.Writer, rng *rand.Rand, sc *scenario) error {
 				out, _, err := query(n)
 				return out, err
 			})
+			mu.Lock()
+			w.Emit(map[string]any{"ev": "lk.ret", "t": sc.t})
+			mu.Unlock()
 			done <- outcome{res: res}
 			return
 		}
@@ -398,6 +407,9 @@ func runScenario(w *tracelog.Writer, rng *rand.Rand, sc *scenario) error {
 		pp := portalwire.VerifBareProtocol(vt)
 		c, _, err := pp.ContentLookup([]byte{0x01, 0x02}, sc.target[:])
 		portalwire.VerifFindContentFunc = nil
+		mu.Lock()
+		w.Emit(map[string]any{"ev": "lk.ret", "t": sc.t})
+		mu.Unlock()
 		done <- outcome{content: c, found: err == nil}
 	}()
 
@@ -428,6 +440,9 @@ func runScenario(w *tracelog.Writer, rng *rand.Rand, sc *scenario) error {
 			w.Emit(map[string]any{"ev": "lk.cancel", "t": sc.t})
 			mu.Unlock()
 			cancel()
+			if sc.t%24 == 5 {
+				time.Sleep(700 * time.Millisecond) // stragglers: the queries still out answer long after the cancellation
+			}
 			continue
 		}
 		mu.Lock()
@@ -486,6 +501,12 @@ func runScenario(w *tracelog.Writer, rng *rand.Rand, sc *scenario) error {
 			}
 			close(g)
 			completed++
+			if sc.t%24 == 5 && pick >= 0 && sc.akind[pick] == aContent && len(gates) > 0 {
+				// stragglers: the content is found (the lookup cancels itself) while other queries stay out for long
+				mu.Unlock()
+				time.Sleep(700 * time.Millisecond)
+				mu.Lock()
+			}
 			if len(together) > 0 {
 				gs := make([]chan struct{}, 0, len(together))
 				for _, o := range together {
